@@ -1007,3 +1007,12 @@ V("c02-coarse-block-range-by-operand-position", "C02", "R02.12", "dask_array/_bl
 V("c02-twin-coarse-operand-axis-renamed", "C02", "-", "dask_array/_blockwise.py", None, None, twin=True, edits=[
   ("dask_array/_blockwise.py", "                for dim_idx, in_ind in enumerate(arg_ind):\n                    try:\n                        out_pos = out_ind.index(in_ind)\n                        br = block_ranges[out_pos]", "                for ax, in_ind in enumerate(arg_ind):\n                    dim_idx = ax\n                    try:\n                        out_pos = out_ind.index(in_ind)\n                        br = block_ranges[out_pos]"),
 ])
+
+# -- R02.13: Reshape is rebuilt through reshape() ---------------------------------------------------------------------
+V("c02-reshape-slice-builds-node-directly", "C02", "R02.13", "dask_array/manipulation/_reshape.py",
+  "        result = reshape(sliced_input, new_out_shape).expr\n", "        result = Reshape(sliced_input.expr, new_out_shape)\n", expect="Reshape._accept_slice")
+V("c02-reshape-door-loses-single-partition-shortcut", "C02", "R02.13", "dask_array/manipulation/_reshape.py", None, None, expect="shortcuts", edits=[
+  ("dask_array/manipulation/_reshape.py", "    if x.shape == shape:\n        return x\n", ""),
+  ("dask_array/manipulation/_reshape.py", "    if npartitions == 1:\n        return new_collection(ReshapeLowered(expr, shape, tuple((d,) for d in shape)))\n", ""),
+  ("dask_array/manipulation/_reshape.py", "        if len(shape) == 1 and x.ndim == 1:\n            return new_collection(x.expr)\n", ""),
+])
